@@ -304,7 +304,7 @@ def enum_pairs(ctx):
                         rng = ctx.rng("pair", tc0, tc1, oe, j)
                         yield {"tc0": tc0, "tc1": tc1, "oe": list(oe), "ctx_a": rng.getrandbits(51), "ctx_b": rng.getrandbits(51), "ctx_addr": rng.getrandbits(24),
                                "t0": rng.choice([0, 1, 5]), "t1": rng.choice([0, 1, 5]), "ref": rng.choice([None, [52.0, 4.0], [-33.0, 151.0]]),
-                               "stamps": rng.choice(["int", "int", "float", "datetime"]), "hc": rng.choice("ULM")}
+                               "stamps": rng.choice(["int", "int", "float", "datetime", "numpy"]), "hc": rng.choice("ULM")}
 
 
 def chk_pair(c, note):
@@ -320,6 +320,9 @@ def chk_pair(c, note):
         c = dict(c, t0=datetime.datetime(2024, 1, 1) + datetime.timedelta(seconds=c["t0"]), t1=datetime.datetime(2024, 1, 1) + datetime.timedelta(seconds=c["t1"]))
     elif c.get("stamps") == "float":
         c = dict(c, t0=c["t0"] + 0.25, t1=c["t1"] + 0.25)
+    elif c.get("stamps") == "numpy":
+        import numpy as np
+        c = dict(c, t0=np.int64(c["t0"]), t1=np.int64(c["t1"]))
     got = call(A.position, m0, m1, c["t0"], c["t1"], *ref)
     t0, t1 = c["tc0"], c["tc1"]
     surf = t0 is not None and t1 is not None and 5 <= t0 <= 8 and 5 <= t1 <= 8
